@@ -362,3 +362,7 @@ M("C11", "skip-slice-equal-to-last", "a816/writers.py", "            self.write_
 M("C16", "block-expands-against-copied-macro-table", CG, "    return _code_gen(node.body, resolver, macro_definitions)\n", "    return _code_gen(node.body, resolver, dict(macro_definitions))\n", "C16.R3")
 M("C17", "backslash-escapes-any-character", SST, "        if c == \"\\\\\" and s.peek() == \"'\":\n            s.next()\n", "        if c == \"\\\\\":\n            s.next()\n", "C17.R4")
 M("C16", "lookahead-by-find-slice-checked-neutral", SST, "        saved_pos = s.pos\n\n        s.accept_run(\" \\t\")\n", "        saved_pos = s.pos\n        _eol = s.input.find(\"\\n\", s.pos)\n        _rest = s.input[s.pos :] if _eol == -1 else s.input[s.pos : _eol]\n\n        s.accept_run(\" \\t\")\n", neutral=True)
+M("C15", "table-line-regex-nested-repeat", "script/__init__.py", '(?P<byte>[0-9a-fA-F]+)(?::', '(?P<byte>[0-9a-fA-F]+(?: ?[0-9a-fA-F]+)*)(?::', "C15.R6")
+M("C15", "table-line-regex-grouped-bytes-neutral", "script/__init__.py", '(?P<byte>[0-9a-fA-F]+)(?::', '(?P<byte>[0-9a-fA-F]+(?: [0-9a-fA-F]+)*)(?::', neutral=True)
+M("C05", "same-bank-test-on-next-address", CPU, "            delta = physical_destination - pc\n", "            if (resolver.reloc_address + 2).logical_value >> 16 != value >> 16:\n                raise RuntimeError(\"not in the current bank\")\n            delta = physical_destination - pc\n", "C05.R3")
+M("C09", "limit-on-scope-log", CG, "    macro_def: MacroAstNode = macro_definitions[node.name]\n", "    if len(resolver.scopes) > 200:\n        raise NodeError(\"nested too deeply\", file_info)\n    macro_def: MacroAstNode = macro_definitions[node.name]\n", "C09.R7")
